@@ -228,10 +228,10 @@ Proof.
   split; vm_compute; reflexivity.
 Qed.
 
-(** the projection of this history on chain A: 10 timed hops (the 3 steps on B
+(** the projection of this history on chain A: 9 timed hops (the 4 steps on B
     contribute none), and the projected run IS chain A of the network *)
 Example C05X_projection_nonvacuous :
-  length (proj x_nesc x_mesc 0 x_n0 x_cross) = 10%nat /\
+  length (proj x_nesc x_mesc 0 x_n0 x_cross) = 9%nat /\
   length (proj x_nesc x_mesc 1 x_n0 x_cross) = 4%nat /\
   nth_error (anrun x_nesc x_mesc x_n0 x_cross) 0
     = Some (thrun idHh idH addr_ok x_nesc x_mesc enc_nft dec_nft enc_mt dec_mt (mk_achain nameA)
@@ -242,4 +242,7 @@ Example C05X_projection_nonvacuous :
                 (enc_mt (mkMtData x_cls x_tid x_alice x_bob true [] 3 (of_string "meta"))));
        EAck x_pkt ack_ok; EAppAck x_pkt ack_ok;
        ERecv x_back; EDeliver x_back; EWriteAck x_back ack_ok].
-Proof. repeat split; vm_compute; reflexivity. Qed.
+Proof.
+  split; [vm_compute; reflexivity|]. split; [vm_compute; reflexivity|].
+  split; vm_compute; reflexivity.
+Qed.
